@@ -120,6 +120,9 @@ func Run(p *Plan, ch simsync.Chooser) *Outcome {
 				res := cl.Exec()
 				rec.Return = simsync.Stamp()
 				rec.Got = res.Canon
+				if res.Unordered || refs[c][i].unordered {
+					rec.Got = sortClauses(res.Canon)
+				}
 				st.recs = append(st.recs, rec)
 				if cl.IsStruct() {
 					m := st.tagsSeen[cl.Type]
@@ -330,6 +333,16 @@ func Run(p *Plan, ch simsync.Chooser) *Outcome {
 		out.Probes.Add("calls_overlapped", 1)
 	}
 	return out
+}
+
+// sortClauses gives the order-insensitive form of an error text whose clause order is unspecified.
+func sortClauses(canon string) string {
+	if !strings.HasPrefix(canon, "err:") {
+		return canon
+	}
+	l := strings.Split(canon[4:], "; ")
+	sort.Strings(l)
+	return "err:" + strings.Join(l, "; ")
 }
 
 func clip(s string) string {
